@@ -964,6 +964,59 @@ def _null_ret_edges(f):
     return out
 
 
+def _flavor_icalls(f, member):
+    return [i for i in f.all_insts() if i.op == "icall" and (lambda e: e[0] == "load" and e[1].endswith("rcu_flavor_struct." + member))(ir.expr(f, i.d["fp"], 6))]
+
+
+def rule_gpmutex(ctx, rep, rid):
+    """A lock that is held across a grace-period wait (resize_mutex around fini_table's synchronize_rcu) is only ever *waited for* by a thread
+    the grace period does not wait for.  The hash table is flavor-generic: with urcu-qsbr a registered thread counts as a reader for as long as it
+    is online, whatever it is doing - blocked on the mutex it never announces a quiescent state, the holder's synchronize_rcu() never returns, and
+    neither does the blocked cds_lfht_resize() / resize worker.  So every acquisition of such a lock is made offline: on every path to it the
+    thread has called flavor->thread_offline() (or read_ongoing() said it is not online) since it last was online / registered."""
+    from .. import lockorder
+    m = ctx.mod("cds", "flat")
+    g = lockorder.LibGraph({"cds": m})
+    ctxh = g.context()
+    H = set()
+    nsync = 0
+    for f in m.defined():
+        for i in _flavor_icalls(f, "update_synchronize_rcu"):
+            nsync += 1
+            H |= set(g.held(f).get(i.id, ())) | ctxh.get(f.name, set())
+    pat.require(nsync >= 2, "only %d grace-period waits through the flavor found in liburcu-cds" % nsync)
+    pat.require(H, "no lock is held across the hash table's grace-period waits any more (anchor changed)")
+    n = 0
+    for f in m.defined():
+        locks = [c for c in f.calls() if c.callee == "pthread_mutex_lock" and lockorder.lock_of(c) in H]
+        if not locks:
+            continue
+        rep.touch(f)
+        off = _flavor_icalls(f, "thread_offline")
+        on = _flavor_icalls(f, "thread_online") + _flavor_icalls(f, "register_thread")
+        ro = set(i.id for i in _flavor_icalls(f, "read_ongoing"))
+        # edges on which read_ongoing() returned 0: the thread is not online (qsbr) - nothing to do
+        def notonline(a):
+            return a[0] == "eq" and a[2] == ("c", 0) and pat.atom_mentions(a, lambda e: e[0] in ("icall", "call") and e[-1] in ro)
+        exempt = [(t.blk.id, s_) for t, s_, a in pat.branch_edges_on(f, notonline)]
+        eok = pat.block_edge_filter(exempt)
+        for c in locks:
+            n += 1
+            inst = "%s.offline-while-waiting-for-%s" % (f.name, lockorder.lock_of(c).split(".")[-1])
+            hit, par = f.reach([f.entry()] + on, [c], avoid=lambda i: i in off, edge_ok=eok, include_start=True)
+            if hit is None:
+                rep.ok(rid, inst, "%s is acquired offline on every path (thread_offline, or read_ongoing() == 0, since the thread last was online)" % lockorder.lock_of(c), [c.where()])
+            elif not off and not ro:
+                rep.bad(rid, inst, "%s blocks on %s as a registered, possibly online thread: the lock is held across synchronize_rcu(), which with the urcu-qsbr flavor waits "
+                        "for every online thread - the holder waits for this thread, this thread for the holder; cds_lfht_resize() / the resize worker never returns"
+                        % (f.name, lockorder.lock_of(c)), [c.where()] + [i.where() for i in f.path_to(hit, par)[:1]])
+            else:
+                path = f.path_to(hit, par)
+                rep.bad(rid, inst, "a path reaches the acquisition of %s with the thread (possibly) online: thread_offline() is skipped or undone before the lock is taken" % lockorder.lock_of(c),
+                        [c.where()] + [i.where() for i in path if i.op in ("br", "switch")][-2:])
+    pat.require(n >= 2, "only %d acquisitions of the locks held across grace-period waits (%s)" % (n, sorted(H)))
+
+
 def rule_attr_handback(ctx, rep, rid):
     """cds_lfht_destroy(ht, &attr) hands the caller's pthread_attr_t back so that the caller can destroy it.  For an auto-resize table the
     teardown is only *queued*: resize work already on the queue still runs partition_resize_helper(), which creates its helper threads with
